@@ -386,8 +386,14 @@ func c08Round6(ctx *core.Ctx, d *ssa.Function, xs, ys ssa.Value) {
 				continue // an exit of an inner loop that happens to leave the outer one too
 			}
 			facts := g.EdgeFacts(ex[0], ex[1])
-			isLenX := func(v ssa.Value) bool { c, ok := v.(*ssa.Call); return ok && isBuiltinCall(c, "len") && c.Call.Args[0] == xs }
-			isLenY := func(v ssa.Value) bool { c, ok := v.(*ssa.Call); return ok && isBuiltinCall(c, "len") && c.Call.Args[0] == ys }
+			isLenX := func(v ssa.Value) bool {
+				c, ok := v.(*ssa.Call)
+				return ok && isBuiltinCall(c, "len") && c.Call.Args[0] == xs
+			}
+			isLenY := func(v ssa.Value) bool {
+				c, ok := v.(*ssa.Call)
+				return ok && isBuiltinCall(c, "len") && c.Call.Args[0] == ys
+			}
 			ex1 := cmpFact(facts, token.GEQ, anyVal, isLenX)
 			ey1 := cmpFact(facts, token.GEQ, anyVal, isLenY)
 			if !ex1 && !ey1 {
